@@ -132,6 +132,14 @@ def replay(case):
             if src == 'A' and scn['cert']:
                 mds.http = FakeHttp(docs['A'].encode('utf-8'))
                 mds.load('remote', url='https://md.verif.example/fedA.xml', cert=env.certfile('kMd'))
+            elif src == 'B' and scn.get('bLoose'):
+                mds.http = FakeHttp(docs['B'].encode('utf-8'))
+                mds.load('remote', url='https://md.verif.example/fedB.xml', check_validity=False)
+            elif src == 'A' and scn.get('bLoose'):
+                path = os.path.join(sb.tmpdir(), 'fedA-%d.xml' % os.getpid())
+                with open(path, 'w') as f:
+                    f.write(docs['A'])
+                mds.load('local', path)
             else:
                 mds.load('inline', docs[src])
             load_log.append([src, 'ok'])
